@@ -13,7 +13,7 @@ ALL_KINDS = [
 ]
 
 # kinds a property has to opt in to (swarm_cfg(on=...)): every model that walks specs must know them
-OPT_IN_KINDS = ["dsclass", "namespace"]
+OPT_IN_KINDS = ["dsclass", "namespace", "fapp"]
 
 ALL_FEATURES = [
     "tmpl",  # templated scalar values in dictionaries
@@ -314,7 +314,7 @@ class SpecGen:
         if k in ("switch", "case"):
             if n.get("default") is None:
                 return True
-        if k in ("bind", "case", "map", "dataset", "derive", "apply", "cached", "withopts", "alloptions", "namespace", "dsclass"):
+        if k in ("bind", "case", "map", "dataset", "derive", "apply", "cached", "withopts", "alloptions", "namespace", "dsclass", "fapp"):
             # user callables / dispatch / shape-dependent: conservative
             return True
         kids = []
@@ -352,6 +352,28 @@ class SpecGen:
             where = r.choices(["fields", "plain", "mixin"], [5, 2, 2])[0]
             node[where].append([nm, self.pick_any()])
         return self.add(node)
+
+    def g_fapp(self):
+        """FunctionApplication / PartialApplication built DIRECTLY: positional arguments (plain values among them) and,
+        half the time, a FUNCTION position that holds an Evaluatable (the callable is chosen by an option-dependent node)."""
+        r = self.rng
+        nm = f"fa{len(self.nodes)}"
+        if r.random() < 0.55:
+            func = {"t": "pick", "n": self.pick_hashable(), "names": [nm + "x", nm + "y"], "first": r.sample(U.DISPATCH_VALUES, r.randint(1, 3))}
+        else:
+            func = {"t": "fn", "name": nm}
+        pos = []
+        for _ in range(r.randint(0, 2)):
+            x = r.random()
+            if x < 0.25:
+                # a constant no other node carries: whoever sees it in a call can tell which Value node it came from
+                pos.append({"v": f"pv{len(self.nodes)}_{len(pos)}"})
+            elif x < 0.5:
+                pos.append({"v": r.choice(U.SCALARS + [[1, 2], {"k": "v"}])})
+            else:
+                pos.append({"n": self.pick_any()})
+        kw = {a: self.pick_any() for a in r.sample(["a", "b"], r.randint(0, 2))}
+        return self.add({"k": "fapp", "form": r.choice(["app", "app", "partial"]), "func": func, "pos": pos, "kw": kw}, hashable=True)
 
     def g_namespace(self):
         """An @Option.namespace class (one per program): declared members of every kind; evaluates to the populated section."""
@@ -484,8 +506,8 @@ class SpecGen:
             return all(self._str_stable(c, seen) for c in passthrough) and all(self._str_stable(c, seen) for c in n.get("args", {}).values())
         if k == "derive":
             return self._str_stable(n["base"], seen)
-        if k in ("apply", "map"):
-            return True
+        if k == "fapp" and any("{" in repr(p.get("v")) for p in n["pos"]):
+            return False
         return all(self._str_stable(c, seen) for c in children(n))
 
     def g_withopts(self):
@@ -597,7 +619,7 @@ class SpecGen:
         for _ in range(r.randint(2, 4)):
             self.leaf()
         kinds = cfg["kinds"]
-        weights = {"dataset": 4, "derive": 2, "dsclass": 3}
+        weights = {"dataset": 4, "derive": 2, "dsclass": 3, "fapp": 2}
         for _ in range(cfg["n_internal"]):
             k = r.choices(kinds, [weights.get(x, 1) for x in kinds])[0]
             getattr(self, "g_" + k)()
@@ -709,6 +731,11 @@ def children(n):
         out.append(n["base"])
     elif k == "namespace":
         out.extend(m["n"] for m in n["members"] if m["t"] == "expr")
+    elif k == "fapp":
+        if n["func"]["t"] == "pick":
+            out.append(n["func"]["n"])
+        out.extend(p["n"] for p in n["pos"] if "n" in p)
+        out.extend(n["kw"].values())
     return out
 
 
@@ -829,7 +856,7 @@ def may_be_unhashable(by, nid, seen=None):
         if n.get("body") == "selector":
             return any(may_be_unhashable(by, c, seen) for c in n.get("args", {}).values())
         return any("n" in impl and may_be_unhashable(by, impl["n"], seen) for _, impl in n.get("overloads", []))
-    if k in ("derive", "apply", "map", "template"):
+    if k in ("derive", "apply", "map", "template", "fapp"):
         return False if k != "derive" else may_be_unhashable(by, n["base"], seen)
     if k == "switch":
         return any(may_be_unhashable(by, v, seen) for _, v in n["lookup"]) or (n.get("default") is not None and may_be_unhashable(by, n["default"], seen))
